@@ -27,7 +27,6 @@ def run(chk):
                        'after the slot tested unused, at most 1/2/3 times per 1 GiB/2 MiB/4 KiB map_to and never by another operation; deallocate_frame is reachable only from clean_up; '
                        '(D4) every write in mapper code goes to a page-table slot. Not decided: the byte-level statement about physical memory and the behaviour of the allocator.')
     lab = MapperLab(chk)
-    chk.guard('census', 'raw dereferences', lambda: census(chk, lab))
     # what `zero()` (an event in the path rules below) does to a table: every one of the 512 slots is cleared
     from .c08 import iter_rules
     from ..interp import State
@@ -49,6 +48,15 @@ def run(chk):
     for key, (fn_, pss) in sorted(runs.items(), key=lambda kv: repr(kv[0])):
         site = lab.I.fn[fn_]['loc']
         chk.guard('path-rules', repr(key), lambda: path_rules(chk, lab, key, pss, site))
+    # the clean-up helpers (they dereference child tables too): C10's structural rules, run here as well
+    from . import c10
+
+    def cleanup_rules():
+        for impl in ('mapped', 'recursive'):
+            c10.helper(chk, impl)
+            c10.entry_points(chk, impl)
+    chk.guard('clean-up', 'clean_up helpers', cleanup_rules)
+    chk.guard('census', 'raw dereferences', lambda: census(chk, lab))
 
 
 def census(chk, lab):
@@ -60,7 +68,12 @@ def census(chk, lab):
             for op, _ in OPS:
                 analysed.add(impl_fn(impl, size, op))
         analysed.add(impl_fn(impl, None, 'translate'))
-    cleanup = {n for n in lab.I.fn if n.endswith('CleanUp>::clean_up_addr_range::clean_up')}
+    # Every function of the mapper modules that dereferences a raw pointer must have been entered by the path analysis of the operations
+    # (mapper operations above, clean-up helpers through C10's rules): then each of its dereference sites was met on a path and judged by
+    # the guard rules (pointer = frame_to_pointer of a tested entry / recursive table address of known level, parent entry checked). The
+    # rule names no private function, so helpers can be split, merged or renamed.
+    from ..interp import Interp
+    entered = set(Interp.TOUCHED)
     for f in facts['fns']:
         if 'structures::paging::mapper' not in f['name'] or not is_user_fn(f):
             continue
@@ -69,14 +82,8 @@ def census(chk, lab):
             continue
         n_sites += n
         nm = f['name']
-        if nm in CORE_DEREF:
-            chk.ob('who-may-dereference', 'walker primitive %s has exactly %d raw dereference' % (nm.split('::')[-1] if 'inner' not in nm else 'create_next_table::inner', CORE_DEREF[nm]), n == CORE_DEREF[nm],
-                   'found %d' % n, f['loc'])
-        elif nm in analysed or nm in cleanup:
-            chk.ob('who-may-dereference', '%s dereferences raw table pointers (%d sites; each is path-checked)' % (nm.split('mapper::')[1][:90], n), 'recursive_page_table' in nm,
-                   'only RecursivePageTable operations may dereference table addresses directly', f['loc'], nontrivial=False)
-        else:
-            chk.ob('who-may-dereference', 'raw dereference in %s' % nm, False, 'a function outside the walker primitives and the analysed operations dereferences a raw pointer (%d sites)' % n, f['loc'])
+        chk.ob('who-may-dereference', '%s dereferences raw table pointers (%d sites): entered and judged by the path rules' % (nm.split('mapper::')[1][:100], n), nm in entered,
+               'this function dereferences a raw pointer but no analysed operation reaches it', f['loc'], nontrivial=False)
     chk.floor('raw dereference sites in the mapper modules', n_sites, 29)
     # no other way to touch memory
     bad = []
@@ -106,11 +113,16 @@ def census(chk, lab):
                 callers_a.add(f['name'])
             if c['name'] == DEALLOC:
                 callers_d.add(f['name'])
-    want_a = {MP + 'mapped_page_table::PageTableWalker::<P>::create_next_table', MP + "recursive_page_table::RecursivePageTable::<'a>::create_next_table::inner"}
-    chk.ob('allocation-discipline', 'allocate_frame is called only from the two create_next_table functions', callers_a == want_a, 'callers %r' % (sorted(callers_a),))
-    chk.ob('allocation-discipline', 'deallocate_frame is called only from the two clean_up helpers', callers_d == {n for n in lab.I.fn if n.endswith('CleanUp>::clean_up_addr_range::clean_up')},
-           'callers %r' % (sorted(callers_d),))
     g = call_graph(facts)
+    # who may reach the allocator at all: only code under map_to*; who may reach the deallocator: only code under CleanUp::clean_up*
+    roots_a = [n for n in lab.I.fn if is_user_fn(lab.I.fn[n]) and reaches(g, n, lambda y: y == ALLOC)]
+    roots_d = [n for n in lab.I.fn if is_user_fn(lab.I.fn[n]) and reaches(g, n, lambda y: y == DEALLOC)]
+    pub_a = [n for n in roots_a if 'Public' in (lab.I.fn[n].get('vis') or '') or ' as ' in n]
+    pub_d = [n for n in roots_d if 'Public' in (lab.I.fn[n].get('vis') or '') or ' as ' in n]
+    chk.ob('allocation-discipline', 'allocate_frame is reachable only from map_to / identity_map entry points', bool(callers_a) and all(('map_to' in n.split('::')[-1]) or ('identity_map' in n.split('::')[-1]) for n in pub_a),
+           'public entry points reaching it: %r' % (sorted(x.split('::')[-1] for x in pub_a),))
+    chk.ob('allocation-discipline', 'deallocate_frame is reachable only from the CleanUp entry points', bool(callers_d) and all('clean_up' in n.split('::')[-1] for n in pub_d),
+           'public entry points reaching it: %r' % (sorted(x.split('::')[-1] for x in pub_d),))
     for impl in IMPLS:
         for size in SIZES3:
             for op, _ in OPS:
